@@ -373,8 +373,14 @@ pub fn anomaly_class<E: Field>(circuit: &Circuit<E>, slot: u64) -> String {
                 horner = true;
             }
             if first_use.is_none() && !pos.is_empty() {
-                first_use = Some(if pos.len() >= 2 {
-                    "multi-position".to_string()
+                let leaf = if k.contains(&"private") { "private" } else { "hint-out" };
+                first_use = Some(if pos.len() >= 2 && pos.contains(&"out") {
+                    // the row's own result slot is the leaf itself (assert_bool(p), an op whose
+                    // result is connected to its private operand): role assignment has a dedicated
+                    // "aliased by out" guard for this, so it is a class of its own
+                    format!("aliased-by-out:{leaf}:{:?}.{}", kind, pos.join("+"))
+                } else if pos.len() >= 2 {
+                    format!("multi-position:{leaf}:{:?}.{}", kind, pos.join("+"))
                 } else {
                     format!("{:?}.{}", kind, pos.join("+"))
                 });
